@@ -278,6 +278,11 @@ class RefSC:
                 ra, rb = find(where[0]), find(where[1])
                 if ra != rb:
                     comp[max(ra, rb)] = min(ra, rb)
+        self.comp_kinds = {}       # component root -> element kinds in that component
+        for kind, idx, where, z in self.parts:
+            k = where[0] if isinstance(where, tuple) else where
+            self.comp_kinds.setdefault(find(k), set()).add(kind)
+        self.comp_of = find
         live_comp = {find(s) for s in self.sources}
         live = [k for k in range(n) if find(k) in live_comp]
         self.live = set(live)
@@ -326,6 +331,11 @@ class RefSC:
     def kappa_c(self, zc):
         """peak factor of method (c) from the driving-point impedance zc of the peak=True network"""
         return 1.02 + 0.98 * math.exp(-3.0 * zc.real / zc.imag * self.fscale)
+
+    def kinds_at(self, b):
+        """element kinds in the connected component of bus b"""
+        k = self.node_of(b)
+        return set() if k is None else self.comp_kinds.get(self.comp_of(k), set())
 
     def node_of(self, b):
         return self.pos[self.find(int(b))] if self.in_service[int(b)] else None
